@@ -499,7 +499,7 @@ func callUnmarshal(api string, doc string, target any, os *optSet, us *json.Unma
 
 func classOf(o outcome) string {
 	switch o.Beh {
-	case "zero", "two", "partial", "partial-arr", "unsup-after":
+	case "zero", "two", "partial", "partial-arr", "unsup-after", "unsup-open-arr", "unsup-open-obj", "unsup-open":
 		return "policing"
 	case "popbelow":
 		return "policing-pop-below-entry"
@@ -1069,12 +1069,12 @@ func contains(a []string, s string) bool {
 // ---------------------------------------------------------------------------------
 // the matrix
 
-var coderBehM = []string{"one-obj", "one-val", "zero", "two", "partial", "partial-arr", "popbelow", "unsup-before", "unsup-after",
+var coderBehM = []string{"one-obj", "one-val", "zero", "two", "partial", "partial-arr", "popbelow", "unsup-before", "unsup-after", "unsup-open-arr", "unsup-open-obj",
 	"err-before", "err-mid", "err-after", "panic-before", "panic-mid", "reset", "nested-reset", "opts"}
 var bytesBehM = []string{"ok-obj", "unsup", "err", "bad-syntax", "two", "empty", "panic"}
 var textBehM = []string{"unsup", "err", "panic"}
 
-var coderBehU = []string{"one-skip", "one-tok", "peek-one", "zero", "two", "partial", "popbelow", "unsup-before", "unsup-after",
+var coderBehU = []string{"one-skip", "one-tok", "peek-one", "zero", "two", "partial", "popbelow", "unsup-before", "unsup-after", "unsup-open",
 	"err-before", "err-after", "panic-before", "panic-mid", "reset", "nested-reset", "opts"}
 var bytesBehU = []string{"unsup", "err", "panic"}
 
